@@ -12,6 +12,9 @@ the response-header rule of `EncodeResponse` / `encodeResponseHeader` of respons
 * kmsg's `RequestForKey(k) != nil && IsFlexible()` is the parameter `flex : Int → Int → Bool`
   (dumped from the linked kmsg by the harness on every run).
 * `binary.Uvarint` is modelled with `+`/`*` instead of `|`/`<<` (the operands have disjoint bits).
+* Body stage (`ParseRequestBody`, `ParseRequest`): kmsg's decoder is a parameter (`known`, `dec`); request.go's own logic around it —
+  unknown key, the decode-error path incl. the evaluation of the error-message arguments, the header handed through — is modelled
+  (`parseRequestBodyWith`); the header's client id is an `Option` (null client id = `none`).
 -/
 namespace KafVerif.ProtoHeader
 
@@ -162,6 +165,42 @@ def encodeHeader (h : Header) (flexible : Bool) (tags : List (Nat × Bytes)) : B
 def Header.wf (h : Header) : Prop :=
   -32768 ≤ h.key ∧ h.key < 32768 ∧ -32768 ≤ h.ver ∧ h.ver < 32768 ∧
   -2 ^ 31 ≤ h.corr ∧ h.corr < 2 ^ 31 ∧ (∀ s, h.clientId = some s → s.length < 32768)
+
+/-! ### the body stage: `ParseRequestBody` / `ParseRequest` (request.go)
+
+kmsg is the body codec and a PARAMETER: `known k` = `kmsg.RequestForKey(k) != nil`, `dec k v body` = what `req.ReadFrom(body)` does after
+`req.SetVersion(v)`: `some r` = decoded, `none` = kmsg returned an error.  What IS modelled is everything request.go itself does around
+it, in particular the error path: Go evaluates every argument of `fmt.Errorf(...)` before the call, so an argument that dereferences an
+optional header field (`*header.ClientID` of a request with a NULL client id) would panic there.  `errArgs h` is the outcome of evaluating
+those arguments; the header's client id is an `Option` (`none` = the nil `*string` of a null client id). -/
+
+/-- the arguments of the decode-error message of the CODE: `kmsg.NameForKey(header.APIKey), header.APIVersion, err` — only the two
+non-optional fields are read. -/
+def decodeErrArgs (_h : Header) : GoResult Unit := .ok ()
+
+/-- NOT the code: an error message that also prints `*header.ClientID` (nil-pointer dereference when the client id is null). Kept so
+the totality theorem has a witness of what it excludes (`C10.parseRequestDeref_panics`). -/
+def decodeErrArgsDeref (h : Header) : GoResult Unit :=
+  match h.clientId with
+  | none => .panic
+  | some _ => .ok ()
+
+/-- `ParseRequestBody(header, body)`: `RequestForKey == nil` → error; `ReadFrom` error → (evaluate the message arguments) error;
+else the SAME header and the decoded request. -/
+def parseRequestBodyWith {R : Type} (errArgs : Header → GoResult Unit) (known : Int → Bool) (dec : Int → Int → Bytes → Option R)
+    (h : Header) (body : Bytes) : GoResult (Header × R) :=
+  if !known h.key then .err
+  else match dec h.key h.ver body with
+    | some r => .ok (h, r)
+    | none => (errArgs h).bind fun _ => .err
+
+/-- `ParseRequest(b)`: `ParseRequestHeader`, then `ParseRequestBody` on the header and the rest. -/
+def parseRequestWith {R : Type} (errArgs : Header → GoResult Unit) (flex : Int → Int → Bool) (known : Int → Bool)
+    (dec : Int → Int → Bytes → Option R) (b : Bytes) : GoResult (Header × R) :=
+  (parseHeader flex b).bind fun (h, body) => parseRequestBodyWith errArgs known dec h body
+
+def parseRequestBody {R : Type} := @parseRequestBodyWith R decodeErrArgs
+def parseRequest {R : Type} := @parseRequestWith R decodeErrArgs
 
 /-! ### frames -/
 
